@@ -7,6 +7,9 @@
 #include "fsmx_extra.hpp"
 #include <sys/mman.h>
 #include <sys/wait.h>
+#include <sys/prctl.h>
+#include <sys/time.h>
+#include <errno.h>
 #include <time.h>
 #include <setjmp.h>
 #include <signal.h>
@@ -67,6 +70,14 @@ static InFlight* inflight = nullptr; static int my_worker = 0;
 static void path_string(Text& t, long pre_idx, const Op* op, const DevVec* dv);
 // the edge currently executing in this process (sanitizer death callback / crash attribution)
 static long cur_pre_idx = -1; static Op cur_op; static DevVec cur_dv; static bool cur_valid = false;
+// watchdog: a library call that neither returns nor delivers callbacks (e.g. a cyclic task list) would hang the explorer
+static volatile unsigned long g_edge_seq = 0, g_wd_seen = 0; static volatile int g_wd_stuck = 0; static volatile int g_in_edge = 0;
+static void on_watchdog(int) {
+	if (!g_in_edge || g_edge_seq != g_wd_seen) { g_wd_seen = g_edge_seq; g_wd_stuck = 0; return; }
+	if (++g_wd_stuck < 3) return;
+	if (cur_valid) { Text t; path_string(t, cur_pre_idx, &cur_op, &cur_dv); fprintf(stderr, "\nVX-INFLIGHT replay=%s\nVX-HANG: this call did not return within the watchdog period\n", t.c()); fflush(stderr); }
+	_exit(77);
+}
 #ifdef VX_SAN
 extern "C" void __sanitizer_set_death_callback(void (*cb)(void));
 static void on_sanitizer_death() { if (!cur_valid) return; Text t; path_string(t, cur_pre_idx, &cur_op, &cur_dv); fprintf(stderr, "\nVX-INFLIGHT replay=%s\n", t.c()); fflush(stderr); }
@@ -228,7 +239,6 @@ static bool op_enabled(const Op& op, const Abs& pre) {
 }
 
 // --------------------------------------------------------------------------- running one edge
-static jmp_buf g_jb;
 static uint8_t g_prekey[512], g_postkey[512];
 static Edge E;
 
@@ -237,26 +247,34 @@ static void run_edge(long pre_idx, const Abs* pre, const Op& op, const DevVec& d
 	E.pre_idx = pre_idx; E.op = op; E.ndev = dv.n; for (int i = 0; i < dv.n; ++i) { E.dev_pos[i] = dv.pos[i]; E.dev_alt[i] = dv.alt[i]; }
 	E.initial = op.k == OP_CONSTRUCT;
 	if (inflight) { InFlight& f = inflight[my_worker]; f.pre_idx = static_cast<int32_t>(pre_idx); f.op = op; f.dv = dv; f.phase = 1; }
-	cur_pre_idx = pre_idx; cur_op = op; cur_dv = dv; cur_valid = true;
+	cur_pre_idx = pre_idx; cur_op = op; cur_dv = dv; cur_valid = true; ++g_edge_seq; g_in_edge = 1;
 	G.mode = g_strategy_mode ? DM_STRATEGY : DM_DFS;
 	G.begin(dv.n, dv.pos, dv.alt);
 	if (E.initial) {
-		g_alloc.in_lib = 1; construct(0, opt.prefill, op.a != 0); g_alloc.in_lib = 0;
+		G.escape_armed = true;
+		if (setjmp(G.escape) == 0) { g_alloc.in_lib = 1; construct(0, opt.prefill, op.a != 0); }
+		G.escape_armed = false; g_alloc.in_lib = 0;
 		memset(g_prekey, 0, KEYLEN);
 	} else {
 		memcpy(g_slot[0].bytes, store.snap(pre_idx), INST_SIZE);
 		memcpy(g_prekey, store.key(pre_idx), KEYLEN);
 		E.pre = *pre;
 		E.logger_on = pre->logger;
-		if (op.k == OP_COPY) E.res = op_copy(E);
-		else E.res = apply(op, 0);
+		G.escape_armed = true;
+		if (setjmp(G.escape) == 0) {
+			if (op.k == OP_COPY) E.res = op_copy(E);
+			else E.res = apply(op, 0);
+		}   // else: the call was abandoned after exceeding the callback budget many times over (reported through E.overflow)
+		G.escape_armed = false;
 	}
 	g_alloc.in_lib = 0;
 	E.tr = G.tr; E.nev = G.nev; E.overflow = G.overflow; E.diverged = G.diverged; E.guard_cbs = G.guard_cbs;
 	if (G.diverged) die("decision vector diverged while replaying a prefix (non-determinism in the harness)");
 	E.terminal = op.k == OP_DESTROY;
+	if (E.overflow) { E.terminal = false; memset(&E.post, 0, sizeof E.post); E.post.active = NONE8; g_in_edge = 0; return; }
 	if (!E.terminal) { G.cur = inst(0); read_abs(*inst(0), E.post); size_t n = make_key(*inst(0), g_postkey); if (n != KEYLEN) die("key length changed"); E.key_unchanged = !E.initial && !memcmp(g_prekey, g_postkey, KEYLEN); }
 	if (inflight) inflight[my_worker].phase = 2;
+	g_in_edge = 0;
 }
 
 static void companions(const Edge& e) {
@@ -364,7 +382,10 @@ static void initial_ops(Vec<Op>& out) {
 }
 
 // expands one state completely
+static FILE* g_dump_counts = nullptr;
 static void expand(long idx, int maxdev, bool monitors, bool discover) {
+	const unsigned long e0 = n_edges;
+	struct Tail { long idx; unsigned long e0; ~Tail() { if (g_dump_counts) { fprintf(g_dump_counts, "%016llx %lu\n", static_cast<unsigned long long>(fnv(store.key(idx), KEYLEN)), n_edges - e0); fflush(g_dump_counts); } } } tail{idx, e0};
 	Abs pre; memcpy(g_slot[0].bytes, store.snap(idx), INST_SIZE); G.cur = inst(0); read_abs(*inst(0), pre);
 	for (size_t k = 0; k < ops.n; ++k) if (op_enabled(ops[k], pre)) explore_op(idx, &pre, ops[k], maxdev, monitors, discover);
 }
@@ -489,6 +510,7 @@ static int explore_main() {
 				pid_t pid = fork();
 				if (pid < 0) die("fork failed");
 				if (pid == 0) {
+					prctl(PR_SET_PDEATHSIG, SIGKILL);
 					my_worker = w; n_edges = 0; n_validated = 0; n_companion_runs = 0; g_digest = 0; shapes = Set64(); viols.clear(); npreds = 0; memset(viol_count, 0, sizeof viol_count); sample_texts.clear(); g_alloc.hits = 0;
 					bool wcap = false;
 					for (size_t k = w; k < level.n; k += W) { if ((k & 63) == static_cast<size_t>(w & 63) && now() - t_start > opt.deadline) { wcap = true; break; } expand(level[k], opt.dev, true, true); }
@@ -505,15 +527,15 @@ static int explore_main() {
 			}
 			Vec<uint8_t> rec; rec.reserve(KEYLEN + INST_SIZE + sizeof(Parent));
 			for (int w = 0; w < W; ++w) {
-				int st = 0; waitpid(pids[w], &st, 0);
+				int st = 0; while (waitpid(pids[w], &st, 0) < 0 && errno == EINTR) {}
 				char path[700]; snprintf(path, sizeof path, "%s.w%d", outbase, w);
 				if (!WIFEXITED(st) || WEXITSTATUS(st) != 0) {
 					InFlight& f = inflight[w]; Text rp; path_string(rp, f.pre_idx, &f.op, &f.dv);
-					char line[4096]; snprintf(line, sizeof line, "%d crash\t%s\tworker %d terminated abnormally (status 0x%x) while executing this edge: undefined behaviour / sanitizer report, see stderr", C18, rp.c(), w, st);
+					char line[4096]; snprintf(line, sizeof line, "%d crash\t%s\tworker %d %s while executing this edge (status 0x%x)", C18, rp.c(), w, (WIFEXITED(st) && WEXITSTATUS(st) == 77) ? "was stopped by the watchdog: the call did not return" : "terminated abnormally: undefined behaviour / sanitizer report, see stderr", st);
 					M.viol_lines.push(strdup(line)); M.count[C18] += 1; M.pred_lines.push(strdup("18 crash 1"));
 					exhaustive = false; capped = true; cap_reason = "worker crashed";
 				} else {
-					merge_file(path, M);
+					{ unsigned long before = M.edges; merge_file(path, M); if (getenv("VX_DEBUG_MERGE")) fprintf(stderr, "level %d worker %d edges %lu (states in level %zu)\n", nlevels, w, M.edges - before, level.n); }
 					FILE* f = fopen(path, "r"); if (f) { char* l = nullptr; size_t c = 0; while (getline(&l, &c, f) > 0) if (!strncmp(l, "capped", 6)) { capped = true; cap_reason = "deadline reached during search"; } free(l); fclose(f); }
 					snprintf(path, sizeof path, "%s.s%d", outbase, w);
 					f = fopen(path, "rb");
@@ -569,6 +591,7 @@ static void run_strategies(Merged& M, size_t& nstates_total, bool& exhaustive) {
 	for (int w = 0; w < W; ++w) {
 		pid_t pid = W == 1 ? 0 : fork();
 		if (pid == 0) {
+			if (W > 1) prctl(PR_SET_PDEATHSIG, SIGKILL);
 			my_worker = w; unsigned long nst = 0;
 			for (unsigned long s = w; s < nstrat; s += W) {
 				if ((s & 63) == 0 && now() - t_start > opt.deadline) { capped = true; break; }
@@ -606,7 +629,7 @@ static void run_strategies(Merged& M, size_t& nstates_total, bool& exhaustive) {
 	}
 	nstates_total = 0;
 	for (int w = 0; w < W; ++w) {
-		int st = 0; if (W > 1) waitpid(pids[w], &st, 0);
+		int st = 0; if (W > 1) while (waitpid(pids[w], &st, 0) < 0 && errno == EINTR) {}
 		char path[600]; snprintf(path, sizeof path, "%s.w%d", opt.out ? opt.out : "/tmp/fsmx", w);
 		if (W > 1 && (!WIFEXITED(st) || WEXITSTATUS(st) != 0)) { M.count[C18] += 1; exhaustive = false; cap_reason = "worker crashed"; char line[256]; snprintf(line, sizeof line, "%d crash\tstrategy-worker\tworker %d terminated abnormally (status 0x%x)", C18, w, st); M.viol_lines.push(strdup(line)); }
 		merge_file(path, M);
@@ -692,6 +715,9 @@ int main(int argc, char** argv) {
 #ifdef VX_SAN
 	__sanitizer_set_death_callback(on_sanitizer_death);
 #endif
+	{ struct sigaction sa; memset(&sa, 0, sizeof sa); sa.sa_handler = on_watchdog; sa.sa_flags = SA_RESTART; sigaction(SIGALRM, &sa, nullptr);
+	  struct itimerval it; it.it_interval.tv_sec = 3; it.it_interval.tv_usec = 0; it.it_value = it.it_interval; setitimer(ITIMER_REAL, &it, nullptr); }
+	if (getenv("VX_DUMP_COUNTS")) g_dump_counts = fopen(getenv("VX_DUMP_COUNTS"), "a");
 	if (opt.replay) return replay_main();
 	return explore_main();
 }
